@@ -20,6 +20,7 @@
   initial table.
 -/
 import UnytProofs.Lemmas.C12Sim
+import UnytProofs.Lemmas.C12Setup
 import UnytProofs.Lemmas.C12Witness
 import UnytModel.Generated.RegistryC12Cfg
 
@@ -69,6 +70,18 @@ theorem refines_fresh_partial (t0 : Lut K) (h : List (Op K)) (op : Op K)
 theorem lookups_always_safe (s : RegState K) (q : String) :
     opSafe cfg parse s (.unit q) = true ∧ opSafe cfg parse s (.contains q) = true ∧
     opSafe cfg parse s (.getitem q) = true := ⟨rfl, rfl, rfl⟩
+
+/-- a readable class of histories inside the guard, for ANY configuration (so for the present
+    code): first edit (any `add`/`modify`/`remove`, in any number and order), then only look
+    things up.  Then every construction, `in` and `[]` answers like the fresh registry. -/
+theorem refines_fresh_setup_then_use (t0 : Lut K) (e l : List (Op K))
+    (he : ∀ o ∈ e, Op.isEdit o = true) (hl : ∀ o ∈ l, Op.isLookup o = true)
+    (op : Op K) (ho : Op.isLookup op = true) :
+    Out.Sim (step cfg pre parse (run cfg pre parse (fresh t0) (e ++ l)) op).2
+            (step cfg pre parse (fresh (contents t0 (e ++ l))) op).2 := by
+  apply refines_fresh_partial cfg pre parse t0 (e ++ l) op
+    (safeRun_edits_then_lookups cfg pre parse e l he hl (fresh t0) (clean_fresh t0))
+  cases op <;> first | rfl | simp [Op.isLookup] at ho
 
 /-- `old_units_keep_value`: a `Unit` object that exists after a history `h` (heap cell `i`) has
     the same data after any continuation `h'` — for every configuration and every history -/
@@ -367,6 +380,12 @@ open Witness in
 example : safeRun Cfg.asIs pre parse (fresh t0)
     [.add "foo" foo2, .unit "s", .modifyF "foo" 3, .unit "kfoo", .contains "Mfoo"] = true := by
   decide +kernel
+
+open Witness in
+/-- `refines_fresh_setup_then_use` is not vacuous -/
+example : (∀ o ∈ [Op.add "foo" foo2, .modifyF "foo" 3, .remove "s"], Op.isEdit o = true) ∧
+    (∀ o ∈ [Op.unit "kfoo", .contains "Mfoo", .unit "foo*s"], Op.isLookup (K := Rat) o = true) := by
+  decide
 
 open Witness in
 /-- …and the guard rejects the counterexample history -/
